@@ -30,6 +30,7 @@ import (
 	_ "verif/harness/c03"
 	_ "verif/harness/c04"
 	_ "verif/harness/c05"
+	_ "verif/harness/c06"
 	_ "verif/harness/c07"
 	_ "verif/harness/c11"
 )
